@@ -420,6 +420,15 @@ pub fn main() {
             let mut r = c03::run(&opts);
             if opts.replay.is_none() {
                 r.merge(c04::run_mode(&opts, "C03"));
+                // "whatever else the user did meanwhile": set_scripts commands at every point of
+                // a sync (pending records, partly downloaded batches), activity oracle afterwards
+                let mut s = sync::run(&opts, "C03");
+                for v in s.violations.iter_mut() {
+                    if v.signature.starts_with("C09|") {
+                        v.signature = format!("C03|set-scripts-history|{}", &v.signature[4..]);
+                    }
+                }
+                r.merge(s);
             }
             r
         }
